@@ -593,7 +593,10 @@ func Eval(s Script) ev.Result {
 	var runErr error
 	if !ev.WithTimeout(40*time.Second, func() { _, runErr = dev.TO2(ctx, link, nil) }) {
 		cancel()
-		return ev.Failf("hang:to2", "TO2 did not return within 40 s (types so far %v)", types)
+		w.mu.Lock()
+		sofar := append([]uint8{}, types...)
+		w.mu.Unlock()
+		return ev.Failf("hang:to2", "TO2 did not return within 40 s (types so far %v)", sofar)
 	}
 
 	// classification
